@@ -25,6 +25,7 @@ func runC11(c *Ctx) {
 	ruleOneResponseOnly(c, "R11.d")
 	ruleFlushBeforeRead(c, "R11.d")
 	ruleCloseOnEveryExit(c, "R11.e")
+	ruleGoroutineOwnsItsIteration(c, "R11.e")
 	ruleRegistryBracket(c, "R11.e")
 	ruleNoRetryAfterParseError(c, "R11.f")
 	c.rule("R11.g", "after the handler call the connection loop is left only through the QUIT sentinel: neither a handler error nor a failed reply write ends it, so every request received completely before the stream ended is executed")
